@@ -237,6 +237,13 @@ def _cname(inst):
 
 def _state(inst):
     """the state a node carries, as an int (0 = a fresh node)"""
+    try:
+        return _state_(inst)
+    except Exception as e:          # a node left half-adopted by a refused load
+        return "broken:" + type(e).__name__
+
+
+def _state_(inst):
     if _cname(inst) == "W":
         if "a" not in inst.children:
             return 0
@@ -609,7 +616,28 @@ def _family(locs):
     return out
 
 
+def _may_hit_known(case):
+    """a delete after an interrupted save at the same location, or a delete / failing save at the bare file
+    name: where the recorded findings S24 / S25 live"""
+    crashed = set()
+    for op in case["ops"]:
+        if op[0] == "save" and op[6] is not None:
+            crashed.add(op[1])
+        if op[0] == "save" and op[1] == "flat":
+            return True
+        if op[0] == "delete" and (op[1] in crashed or op[1] == "flat"):
+            return True
+        if op[0] == "ctor" and op[2] and "default" in crashed:
+            return True
+    return False
+
+
 def generate(ctx):
+    cases = _generate(ctx)
+    return [c for c in cases if not _may_hit_known(c)] + [c for c in cases if _may_hit_known(c)]
+
+
+def _generate(ctx):
     rng = ctx.rng
     fam = _family(["default"] if ctx.quick else LOCS)
     if ctx.quick:
@@ -620,7 +648,7 @@ def generate(ctx):
         if k not in seen:
             seen.add(k)
             cases.append(c)
-    target = len(cases) + ctx.n(480, 9000)
+    target = len(cases) + ctx.n(480, 6000)
     while len(cases) < target:
         c = _rand_case(rng)
         k = json.dumps(c, sort_keys=True)
@@ -647,7 +675,8 @@ def _judge(case, obs):
     """all violations of the property text in this history: [(signature, message, op index, known id)]"""
     case = _tolist(case)
     bad = []
-    if not isinstance(obs, list) or len(obs) != len(case["ops"]):
+    if (not isinstance(obs, list) or len(obs) != len(case["ops"]) or (obs and obs[0] == "HARNESS-EXC")
+            or not all(isinstance(o, list) and o and o[0] == op[0] for o, op in zip(obs, case["ops"]))):
         return [("driver", f"driver: observation does not match the op list: {str(obs)[:200]}", 0, None)]
     uni = _universe(case)
     locs = uni[0]
